@@ -182,6 +182,10 @@ def sweep_cases(rnd, idx0):
         start = D(sy, rnd.randrange(3, 5), rnd.randrange(1, 28))
         rot = [("SM", None, start), ("SM", start + datetime.timedelta(days=rnd.randrange(10, 40)), D(sy, 9, rnd.randrange(5, 28))),
                ("SOY", D(sy + 1, 4, rnd.randrange(10, 28)), D(sy + 1, 9, rnd.randrange(5, 28)))]
+        if kw.get("tillage"):
+            # tillage events dated inside the standing first crop, on a day d and on d+1: a tillage waits in two-day hops for the automatic
+            # harvest, whichever parity the harvest day has relative to it
+            kw["tillage"] = [(20, 1, D(sy, 7, 10) + datetime.timedelta(days=kw["tillage"] - 1))]
         if kw.pop("late_crop", False):
             # a crop drilled 20-30 November with the latest harvest date 10 December: it cannot emerge, the automatic harvest has to
             # take it off on its latest date and the rotation goes on
@@ -233,6 +237,11 @@ def sweep_cases(rnd, idx0):
     add("AutoHarvest=1 ManagementEvents=1 DateENlong", auto={"AutoHarvest": 1}, mgmt=True, datefmt="DateENlong")
     add("AutoSowingHarvest=1 AutoHarvest=1 ManagementEvents=1 DateENlong late-sown crop", auto={"AutoSowingHarvest": 1, "AutoHarvest": 1}, mgmt=True,
         datefmt="DateENlong", late_crop=True)
+    for par in (1, 2):
+        add("AutoHarvest=1 ManagementEvents=1 DateENlong tillage inside the stand (day %d)" % par, auto={"AutoHarvest": 1}, mgmt=True,
+            datefmt="DateENlong", tillage=par)
+        add("AutoSowingHarvest=1 AutoHarvest=1 ManagementEvents=1 DateENlong tillage inside the stand (day %d)" % par,
+            auto={"AutoSowingHarvest": 1, "AutoHarvest": 1}, mgmt=True, datefmt="DateENlong", tillage=par)
     add("AutoHarvest=1 ManagementEvents=1 DateENlong late-sown crop", auto={"AutoHarvest": 1}, mgmt=True, datefmt="DateENlong", late_crop=True)
     add("AutoSowingHarvest=1 ManagementEvents=1 DateENlong", auto={"AutoSowingHarvest": 1}, mgmt=True, datefmt="DateENlong")
     return out
@@ -317,7 +326,7 @@ def _run(ctx):
         if c.get("ext"):
             cfg["ResultFileExt"] = c["ext"]
         cfg.update(c.get("auto") or {})
-        opts = dict(automan_rows=c.get("automan_rows"), rot_mode=c.get("rotmode", "contiguous"), crop_csv=c.get("cropcsv", False), pfout=c.get("pfout"), management=c.get("mgmt", False))
+        opts = dict(automan_rows=c.get("automan_rows"), tillage=c.get("tillage"), rot_mode=c.get("rotmode", "contiguous"), crop_csv=c.get("cropcsv", False), pfout=c.get("pfout"), management=c.get("mgmt", False))
         # a used result folder: one or two earlier runs into the SAME folder (same file names), longer / more records or
         # the same; the files must afterwards hold the records of the last run only
         for j, kind in enumerate(c.get("earlier", ())):
